@@ -429,7 +429,7 @@ func (r *PlanRun) finish() Result {
 	}
 	allOK := outcomes["err"]+outcomes["perm"]+outcomes["wrongtype"]+outcomes["overrun"] == 0
 	dist := map[string]any{"events": len(evs), "kinds": kinds, "outcomes": outcomes, "hang": hang,
-		"after_release": after, "probes": probes, "empty_error_messages": r.emptyMsgs, "late_starts": lateStarts, "late_ends": lateEnds, "late_never": lateNever,
+		"after_release": after, "probes": probes, "empty_error_messages": r.emptyMsgs, "errors_with_response": r.errWithResp, "late_answers": r.lateAnswers, "late_starts": lateStarts, "late_ends": lateEnds, "late_never": lateNever,
 		"start_ok": r.startOK, "racing_starts": r.raced, "start_ctx_cancelled": r.ctxCancelled, "start_ctx_cancel_us": r.ctxCancelUs}
 	for k, v := range sp.Dist {
 		dist[k] = v
